@@ -57,8 +57,8 @@ pub open spec fn set_proof_ok(hashes: Seq<TransactionHash>, p: &ProtocolMkProof)
 impl CardanoTransactionsSetProof {
     //@extract file=mithril-common/src/entities/cardano_transactions_set_proof.rs fn=verify within="impl CardanoTransactionsSetProof"
     //@ rewrite /StdResult<\(\)>/ => /Result<(), StdError>/
-    //@ rewrite /for hash in &self\.transactions_hashes \{/ => /for hash in it: self.transactions_hashes.iter() {/
-    //@ rewrite /&hash\.to_owned\(\)\.into\(\)/ => /&tx_hash_node(hash)/
+    //@ rewrite /for (\w+) in &self\.transactions_hashes \{/ => /for \1 in it: self.transactions_hashes.iter() {/
+    //@ rewrite /&(\w+)\.to_owned\(\)\.into\(\)/ => /&tx_hash_node(\1)/
     //@ spec ensures ret is Ok ==> set_proof_ok(self.transactions_hashes@, &self.transactions_proof)
     //@ loop 0 invariant proof_valid(&self.transactions_proof), forall|i: int| 0 <= i < it.index@ ==> proof_contains(&self.transactions_proof, hash_node(#[trigger] self.transactions_hashes@[i]@)),
     //@end
@@ -129,7 +129,7 @@ fn collect_hashes(parts: &Vec<CardanoTransactionsSetProofMessagePart>) -> (r: Ve
 impl CardanoTransactionsProofsMessage {
     //@extract file=mithril-common/src/messages/cardano_transactions_proof.rs fn=verify within="impl CardanoTransactionsProofsMessage"
     //@ rewrite /let mut merkle_root = None;/ => /let mut merkle_root: Option<String> = None;/
-    //@ rewrite /for certified_transaction in &self\.certified_transactions \{/ => /for certified_transaction in it: self.certified_transactions.iter() {/
+    //@ rewrite /for (\w+) in &self\.certified_transactions \{/ => /for \1 in it: self.certified_transactions.iter() {/
     //@ rewrite /\.map_err\(VerifyCardanoTransactionsProofsError::MalformedData\)/ => /.map_err(|e: StdError| -> (r: VerifyCardanoTransactionsProofsError) { VerifyCardanoTransactionsProofsError::MalformedData(e) })/
     //@ rewrite /\.map_err\(\|e\| \{/ => /.map_err(|e: StdError| -> (r: VerifyCardanoTransactionsProofsError) {/
     //@ rewrite /certified_transactions: self\s*\.certified_transactions\s*\.iter\(\)\s*\.flat_map\(\|c\| c\.transactions_hashes\.clone\(\)\)\s*\.collect\(\),/ => /certified_transactions: collect_hashes(&self.certified_transactions),/
